@@ -13,6 +13,9 @@ R03.4 (CFG) slot order = frame channel order: the guard comparing the frame's ch
       names dominates construction of every MultiFrameData; the mapping that fixes field order iterates the frame's
       channel list.
 R03.5 (shared with C10 R10.5) chunking covers rows once, in order.
+R03.6 (= C06 R06.2) the frame number's UVARI forms are exact.   R03.7 the source wrapper is built anew per write and frame.
+R03.8 (= C11 R11.3) every chunk-filling load_chunk reads the rows of the data set itself, so the declared cast is the
+      one numpy applies on assignment into the chunk field - for every source kind alike.
 Not decided: bit-exact preservation through numpy's cast / copy, memory layouts inside numpy, what a reader decodes.
 """
 
@@ -45,6 +48,21 @@ def run(chk):
     chk.guard(r03_5_chunks, chk)
     chk.guard(r03_6_frame_number_encoding, chk)
     chk.guard(r03_7_fresh_wrapper, chk)
+    chk.guard(r03_8_one_conversion, chk)
+
+
+def r03_8_one_conversion(chk):
+    """The declared cast is applied once and by numpy, when the source rows are assigned into the chunk field of the
+    declared dtype: every chunk-filling implementation reads the rows of the data set itself (= C11 R11.3), so no source
+    kind converts the values a second, different way (h5py's converting views saturate where numpy wraps)."""
+    from . import c11
+    tmp = Check("C11", "quick", 0, chk.ix, chk.cg, quiet=True)
+    c11.r11_3_mapping(tmp)
+    for o in tmp.obs:
+        if o.key.startswith(("rows-read-from-the-data-set-itself", "fields-filled-from-mapping")):
+            o.rule = "R03.8"
+            chk.obs.append(o)
+    chk.consulted_functions |= tmp.consulted_functions
 
 
 def _numbering_generator_form(chk, mfd, it_):
